@@ -1214,9 +1214,19 @@ func (v *Validator) typeOfSet(env *requestEnv, n ast.NodeTypeSet, caps capabilit
 }
 
 func (v *Validator) typeOfExtensionCall(env *requestEnv, n ast.NodeTypeExtensionCall, caps capabilitySet) (cedarType, capabilitySet, error) {
-	sig := extFuncTypes[n.Name]
-
 	var errs []error
+
+	sig, ok := extFuncTypes[n.Name]
+	if !ok {
+		// Unknown function: still typecheck all args to collect nested errors
+		for _, arg := range n.Args {
+			if _, _, err := v.typeOfExpr(env, arg, caps); err != nil {
+				collectErrors(&errs, err)
+			}
+		}
+		errs = append(errs, fmt.Errorf("undefined extension function: %s", n.Name))
+		return nil, caps, errors.Join(errs...)
+	}
 
 	if len(n.Args) != len(sig.argTypes) {
 		// Still typecheck all args to collect nested errors (matches Rust behavior)
